@@ -29,6 +29,8 @@ def d_conformant(g, tier):
     ops = []
     for i in range(n):
         ops += gen.conformant_session(g, npk=g.r.choice([4, 8, 12]))
+    for i in range(6 if tier == "quick" else 60):
+        ops += gen.floats_session(g)
     return ops
 
 
@@ -127,6 +129,7 @@ LIGHT_DRIVERS = {"scale"}      # adversarial 64 KiB inputs: totality, accounting
 PROP_DRIVERS = {
     "C01": ["corpus", "hostile", "mutate", "conformant", "scale"],
     "C15": ["corpus", "conformant", "hostile", "scale"],
+    "C16": ["corpus", "conformant", "mutate", "rounds", "hostile"],
     "C02": ["corpus", "conformant", "mutate", "truncate", "hostile"],
     "C03": ["corpus", "conformant", "protocols", "truncate"],
     "C04": ["corpus", "conformant"],
